@@ -299,7 +299,11 @@ func applyParams(rows []sortRow, q ViewQ, reduce string) []VRow {
 
 // viewShapes builds the parameter shapes judged for one view from the keys that currently exist.
 func (s *Sim) viewShapes(rows []sortRow, def ViewDef) []ViewQ {
-	qs := []ViewQ{{"none", map[string]any{"reduce": false}}, {"stale=false", map[string]any{"stale": false, "reduce": false}}}
+	// the first query after a batch of writes is the one that has to refresh the index: each spelling of "not stale"
+	// takes that place in turn
+	first := []ViewQ{{"none", map[string]any{"reduce": false}}, {"stale=false", map[string]any{"stale": false, "reduce": false}}, {"stale-false-string", map[string]any{"stale": "false", "reduce": false}}}
+	k := s.viewN % len(first)
+	qs := []ViewQ{first[k], first[(k+1)%len(first)], first[(k+2)%len(first)]}
 	var keys []any
 	for _, r := range rows {
 		keys = append(keys, r.key)
@@ -328,9 +332,6 @@ func (s *Sim) viewShapes(rows []sortRow, def ViewDef) []ViewQ {
 		ViewQ{"limit", map[string]any{"limit": lim, "reduce": false}},
 		ViewQ{"limit-descending", map[string]any{"limit": lim, "descending": true, "reduce": false}},
 		ViewQ{"limit-range", map[string]any{"limit": lim, "startkey": lo, "reduce": false}},
-		// every spelling of "not stale" is a query that must see the current documents
-		ViewQ{"stale-false-string", map[string]any{"stale": "false", "reduce": false}},
-		ViewQ{"stale-false-bool", map[string]any{"stale": false, "reduce": false}},
 	)
 	if def.Reduce != "" {
 		qs = append(qs,
